@@ -70,6 +70,10 @@ func (msg *MsgRecord) ValidateBasic() error {
 		return errorsmod.Wrapf(sdkerrors.ErrInvalidAddress, "invalid sender address (%s)", err)
 	}
 
+	if err := msg.Amount.Validate(); err != nil {
+		return errorsmod.Wrapf(sdkerrors.ErrInvalidCoins, "invalid amount (%s)", err)
+	}
+
 	if msg.Amount.IsZero() {
 		return errorsmod.Wrapf(sdkerrors.ErrInvalidCoins, "amount cannot be zero")
 	}
@@ -173,6 +177,10 @@ func (msg *MsgCreateTenant) ValidateBasic() error {
 		return errorsmod.Wrapf(sdkerrors.ErrInvalidRequest, "denom cannot be empty")
 	}
 
+	if err := sdk.ValidateDenom(msg.Denom); err != nil {
+		return errorsmod.Wrapf(sdkerrors.ErrInvalidRequest, "invalid denom (%s)", err)
+	}
+
 	if msg.PayoutPeriod == 0 {
 		return errorsmod.Wrapf(sdkerrors.ErrInvalidRequest, "payout period cannot be zero")
 	}
@@ -220,6 +228,10 @@ func (msg *MsgCreateTenantWithMintableContract) ValidateBasic() error {
 
 	if msg.Denom == "" {
 		return errorsmod.Wrapf(sdkerrors.ErrInvalidRequest, "denom cannot be empty")
+	}
+
+	if err := sdk.ValidateDenom(msg.Denom); err != nil {
+		return errorsmod.Wrapf(sdkerrors.ErrInvalidRequest, "invalid denom (%s)", err)
 	}
 
 	if msg.PayoutPeriod == 0 {
@@ -410,6 +422,10 @@ func (msg *MsgDepositToTreasury) ValidateBasic() error {
 	_, err := sdk.AccAddressFromBech32(msg.Sender)
 	if err != nil {
 		return errorsmod.Wrapf(sdkerrors.ErrInvalidAddress, "invalid sender address (%s)", err)
+	}
+
+	if err := msg.Amount.Validate(); err != nil {
+		return errorsmod.Wrapf(sdkerrors.ErrInvalidCoins, "invalid amount (%s)", err)
 	}
 
 	if msg.Amount.IsZero() {
